@@ -237,7 +237,7 @@ def hopelessInst : Inst :=
     tasks := [⟨"A@G0", "A", 0, "G0", .released, 5, 20, [⟨1, 3, [("CPU", 1)]⟩], 0, 0⟩,
               ⟨"B@G1", "B", 0, "G1", .released, 5, 5, [⟨1, 2, [("CPU", 1)]⟩], 0, 0⟩]
     nOffered := 2
-    nodes := [⟨"A@G0", "A", 0, "G0"⟩, ⟨"B@G1", "B", 0, "G1"⟩]
+    nodes := [⟨"A@G0", "A", 0, "G0", .released⟩, ⟨"B@G1", "B", 0, "G1", .released⟩]
     edges := []
     enforceDeadlines := true, retract := false, releaseTaskgraphs := false, goalSlack := false
     allowed0 := [] }
@@ -328,7 +328,7 @@ def pairInst : Inst :=
               ⟨"B@G1", "B", 0, "G1", .released, 0, 11, [⟨1, 2, [("CPU", 1)]⟩], 0, 0⟩,
               ⟨"C@G2", "C", 0, "G2", .released, 0, 11, [⟨1, 2, [("CPU", 1)]⟩], 0, 0⟩]
     nOffered := 3
-    nodes := [⟨"A@G0", "A", 0, "G0"⟩, ⟨"B@G1", "B", 0, "G1"⟩, ⟨"C@G2", "C", 0, "G2"⟩]
+    nodes := [⟨"A@G0", "A", 0, "G0", .released⟩, ⟨"B@G1", "B", 0, "G1", .released⟩, ⟨"C@G2", "C", 0, "G2", .released⟩]
     edges := []
     enforceDeadlines := true, retract := false, releaseTaskgraphs := false, goalSlack := false
     allowed0 := [] }
@@ -554,7 +554,7 @@ def joinInst : Inst :=
     tasks := [⟨"A@G0", "A", 0, "G0", .released, 0, 7, [⟨1, 1, [("CPU", 1)]⟩], 0, 0⟩,
               ⟨"J@G0", "J", 0, "G0", .virtual, -1, 10, [⟨1, 2, [("CPU", 1)]⟩], 0, 0⟩]
     nOffered := 2
-    nodes := [⟨"A@G0", "A", 0, "G0"⟩, ⟨"B@G0", "B", 0, "G0"⟩, ⟨"J@G0", "J", 0, "G0"⟩]
+    nodes := [⟨"A@G0", "A", 0, "G0", .released⟩, ⟨"B@G0", "B", 0, "G0", .other⟩, ⟨"J@G0", "J", 0, "G0", .virtual⟩]
     edges := [("A@G0", "J@G0"), ("B@G0", "J@G0")]
     enforceDeadlines := true, retract := false, releaseTaskgraphs := false, goalSlack := false
     allowed0 := [] }
